@@ -123,7 +123,9 @@ class ServerBase(object):
             ctx.out_object = (None,)
 
         elif isinstance(ctx.out_object, Ignored):
-            ctx.out_object = ()
+            # a method with several return values: nothing for each of them.
+            ctx.out_object = (None,) * \
+                                 len(ctx.descriptor.out_message._type_info)
 
     def convert_pull_to_push(self, ctx, gen):
         oobj, = ctx.out_object
